@@ -124,6 +124,22 @@ def check_int_ctor(repo: Repo, run: Run, cname: str) -> int:
     except OverflowError:
         run.inconclusive("C10.R1", f"{cname}.__new__", "too many paths")
         return 0
+    # R3 (radix): CEL integers are spelled in decimal or, after 0x, in hexadecimal.  `int(text, 0)` lets Python detect
+    # the base: it rejects decimal text with leading zeros (`007`) and accepts 0o17, 0b11, 1_000 -- none of them CEL.
+    radices = []
+    for c in ast.walk(fn):
+        if isinstance(c, ast.Call) and dotted(c.func) == "int" and (len(c.args) == 2 or any(k.arg == "base" for k in c.keywords)):
+            rnode = c.args[1] if len(c.args) == 2 else next(k.value for k in c.keywords if k.arg == "base")
+            radices.append((try_const(ct, rnode, cls, fn), c))
+    bad_r = [(r, c) for r, c in radices if r not in (10, 16)]
+    if bad_r:
+        r, c = bad_r[0]
+        run.ob("C10.R3", f"{cname}.__new__|radix", False,
+               f"{cname}.__new__ parses text with `{ast.unparse(c)[:50]}` (radix {r if r is not None else 'not constant'}): " +
+               ("base 0 makes Python detect the base - decimal text with leading zeros (`007`) is rejected and 0o / 0b / 1_000 spellings are accepted" if r == 0 else "CEL integers are decimal or 0x-hexadecimal"),
+               ct.loc(c))
+    else:
+        run.ob("C10.R3", f"{cname}.__new__|radix", True, f"{cname}.__new__ parses text in radix {sorted({r for r, _ in radices}) or [10]} only", ct.loc(fn))
     for p in all_paths:
         if p.kind != "return" or p.value is None:
             continue
@@ -286,6 +302,37 @@ def check_duration(repo: Repo, run: Run) -> None:
                 guards.append(g)
         ok = any(lo >= -315576000000 and hi <= 315576000000 for lo, hi, _e in guards)
         verdicts.setdefault(lab, []).append((ok, ast.unparse(p.value)[:60], ct.loc(p.node) if p.node is not None else ct.loc(fn)))
+    # R10: the text arm sums the components in float seconds (|s| <= 3.2e11 < 2^39: whole seconds and microseconds are
+    # exact) and hands the sum to timedelta, which splits it exactly.  Scaling the float to a smaller unit first
+    # (x * 1e6, x * 1e9, x / 1e-6) needs more than 53 bits beyond ~4.6e9 s: duration(string(d)) != d for large d.
+    scaled = []
+    n10 = 0
+    for p in all_paths:
+        if p.kind != "return" or p.value is None or "__new__" not in ast.unparse(p.value):
+            continue
+        if not any(pol and isinstance(t, ast.Call) and dotted(t.func) == "isinstance" and len(t.args) == 2 and ast.unparse(strip_cast(t.args[0])) == src_param
+                   and ast.unparse(t.args[1]).split(".")[-1] in ("str", "StringType", "(str, StringType)") or (pol and isinstance(t, ast.Call) and dotted(t.func) == "isinstance" and "str" in ast.unparse(t.args[1])) for t, pol in flat_conds(p.conds)):
+            continue
+        n10 += 1
+        for nd in ast.walk(p.value):
+            if isinstance(nd, ast.BinOp) and isinstance(nd.op, (ast.Mult, ast.Div)):
+                for a, b in ((nd.left, nd.right), (nd.right, nd.left)):
+                    is_sum = any(isinstance(c, ast.Call) and (dotted(c.func) or "").split(".")[-1] in ("fsum", "sum") for c in ast.walk(a))
+                    if not is_sum:
+                        continue
+                    try:
+                        k = const_in(ct, b, cls, fn)
+                    except Exception:  # noqa: BLE001
+                        continue
+                    if isinstance(k, (int, float)) and not isinstance(k, bool) and k != 0:
+                        factor = abs(k) if isinstance(nd.op, ast.Mult) or a is nd.right else 1 / abs(k)
+                        if factor >= 1000:
+                            scaled.append((ast.unparse(nd)[-60:], factor, p.node))
+    if n10:
+        run.ob("C10.R10", "DurationType.__new__[text]|float scale", not scaled,
+               "the parsed float seconds reach timedelta unscaled" if not scaled else
+               f"the text arm scales the float sum of seconds by {scaled[0][1]:g} (`...{scaled[0][0]}`) before building the value: beyond ~{2**53 / scaled[0][1]:.3g} s the product is not exact, so a whole-second duration read back from its own text differs by microseconds (duration(string(d)) != d)",
+               ct.loc(scaled[0][2]) if scaled and scaled[0][2] is not None else ct.loc(fn))
     for lab, vs in sorted(verdicts.items()):
         n += 1
         bad = [v for v in vs if not v[0]]
